@@ -56,6 +56,8 @@ def raw_config(sc):
         real["realization_min_success"] = sc["rms"]
     cfg = {"variables": var, "gradient": grad, "realizations": real,
            "objectives": {"weights": {"one": [1.0], "big": [4.0], "pair": [1.0, 3.0], "zero": [0.0, 0.0], "mixed": [3.0, -1.0]}[sc["owp"]]}}
+    # the optimizer section, with the method spelled bare or qualified (frozen like every other section)
+    cfg["optimizer"] = {"method": "slsqp" if (V + R) % 2 else "SciPy/SLSQP", "max_iterations": 7}
     if V >= 2 and sc["magn"] != "badlen" and sc["mask"] != "badlen":
         # an explicit sampler assignment (an optional array that must be frozen like every other one)
         cfg["samplers"] = [{"method": "norm"}, {"method": "uniform"}]
@@ -94,7 +96,7 @@ EMPTY = {"accepted": False, "rw": [], "ow": [], "rms": 0, "pms": 0, "lb": [], "u
 PARTS = {"variables": VariablesConfig, "gradient": GradientConfig, "linear_constraints": LinearConstraintsConfig,
          "nonlinear_constraints": NonlinearConstraintsConfig, "objectives": ObjectiveFunctionsConfig, "realizations": RealizationsConfig}
 NOTDONE = {"done": False, "first": dict(EMPTY), "route": dict(EMPTY), "objects": dict(EMPTY), "objects2": dict(EMPTY),
-           "parts_unchanged": True, "mutations": []}
+           "parts_unchanged": True, "mutations": [], "negcon": {"accepted": False, "consistent": True, "redump_accepted": True}}
 
 
 def _try(fn):
@@ -137,6 +139,22 @@ def transformed(raw, sc, plain):
         muts = []
         mutate(first, "config", muts, set())
         out["mutations"] = muts
+    # a constraint transform with a NEGATIVE scale reverses the order of the bounds: whatever validation does with it, an
+    # accepted configuration has lower <= upper and its dumped form validates again
+    out["negcon"] = {"accepted": False, "consistent": True, "redump_accepted": True}
+    if nnl:
+        neg = OptModelTransforms(variables=ctx.variables, nonlinear_constraints=ConstraintScaler([-2.0, 4.0][:nnl]))
+        try:
+            c = EnOptConfig.model_validate(raw, context=neg)
+            lo, up = c.nonlinear_constraints.lower_bounds, c.nonlinear_constraints.upper_bounds
+            again = True
+            try:
+                EnOptConfig.model_validate(json.loads(json.dumps(c.model_dump(round_trip=True), default=jsonable)))
+            except (ValidationError, ValueError, TypeError, AssertionError):
+                again = False
+            out["negcon"] = {"accepted": True, "consistent": bool(np.all(lo <= up)), "redump_accepted": again}
+        except (ValidationError, ValueError, TypeError, AssertionError):
+            pass
     return out
 
 
